@@ -27,6 +27,7 @@ type Program struct {
 	repo    string
 	srcText map[string][]string // file -> lines
 	astFile map[string]*ast.File
+	pkgFiles map[string][]*ast.File
 }
 
 func goEnv() []string {
@@ -58,7 +59,7 @@ func loadProgram(repo string, patterns []string) (*Program, error) {
 	prog, _ := ssautil.AllPackages(pkgs, ssa.InstantiateGenerics|ssa.GlobalDebug)
 	prog.Build()
 	P := &Program{prog: prog, pkgs: pkgs, spkgs: map[string]*ssa.Package{}, tpkgs: map[string]*types.Package{},
-		funcs: map[string]*ssa.Function{}, repo: repo, srcText: map[string][]string{}, astFile: map[string]*ast.File{}}
+		funcs: map[string]*ssa.Function{}, repo: repo, srcText: map[string][]string{}, astFile: map[string]*ast.File{}, pkgFiles: map[string][]*ast.File{}}
 	if len(pkgs) > 0 {
 		P.fset = pkgs[0].Fset
 	}
@@ -81,6 +82,7 @@ func loadProgram(repo string, patterns []string) (*Program, error) {
 				if i < len(p.CompiledGoFiles) {
 					P.astFile[p.CompiledGoFiles[i]] = f
 				}
+				P.pkgFiles[p.PkgPath] = append(P.pkgFiles[p.PkgPath], f)
 			}
 		}
 	})
